@@ -175,3 +175,35 @@ func Verif_C12_dedup() {
 	vs.Assert("routing succeeds", err == nil)
 	vs.Assert("each rule covers exactly the addresses of its own prefix set", uint64(ob) == want)
 }
+
+// Verif_C12_ring_index: after a reload the prefix sets live in a ring of kernel map slots that starts
+// at an arbitrary offset. For every rule that refers to a stored set - destination prefixes, source
+// prefixes, MAC prefixes - the index written for the kernel is (start + set index) mod ring size,
+// for an arbitrary start and set index; rules of other kinds are left untouched; an index beyond the
+// number of stored sets is an error.
+func Verif_C12_ring_index() {
+	kinds := []consts.MatchType{consts.MatchType_IpSet, consts.MatchType_SourceIpSet, consts.MatchType_Mac, consts.MatchType_Port, consts.MatchType_DomainSet}
+	k := kinds[vs.Choice("rule.kind", len(kinds))]
+	old := vs.U32("set.index")
+	start := vs.U32("ring.start")
+	count := vs.U32("sets.stored")
+	vs.Assume(start < uint32(consts.MaxMatchSetLen) && count <= uint32(consts.MaxMatchSetLen))
+	var rule bpfMatchSet
+	rule.Type = uint8(k)
+	rule.Value[0], rule.Value[1], rule.Value[2], rule.Value[3] = byte(old), byte(old>>8), byte(old>>16), byte(old>>24)
+	rule.Value[4] = vs.U8("value.byte4")
+	out, err := rewriteKernRulesWithRingLpmIndex([]bpfMatchSet{rule}, start, count)
+	refers := k == consts.MatchType_IpSet || k == consts.MatchType_SourceIpSet || k == consts.MatchType_Mac
+	if refers && old >= count {
+		vs.Assert("an index beyond the stored sets is an error", err != nil)
+		return
+	}
+	vs.Assert("rewriting succeeds", err == nil && len(out) == 1)
+	got := uint32(out[0].Value[0]) | uint32(out[0].Value[1])<<8 | uint32(out[0].Value[2])<<16 | uint32(out[0].Value[3])<<24
+	if refers {
+		vs.Assert("a rule referring to a stored set points at its ring slot", got == (start+old)%uint32(consts.MaxMatchSetLen))
+	} else {
+		vs.Assert("other rules are left as they are", got == old)
+	}
+	vs.Assert("the rest of the rule is untouched", out[0].Value[4] == rule.Value[4] && out[0].Type == rule.Type)
+}
